@@ -189,6 +189,9 @@ func c13Name(v []int) (nm [amlNameLen]byte) {
 
 // ---- the operations: call the real code, recover panics, log the event ----
 
+// c13Opcode is the opcode given to the next created objects (the tree operations must not depend on it).
+var c13Opcode = pOpIntScopeBlock
+
 func (l *c13Log) opNew(tree *ObjectTree, named bool, nm [amlNameLen]byte, withState bool) (idx int) {
 	ok := true
 	func() {
@@ -199,9 +202,9 @@ func (l *c13Log) opNew(tree *ObjectTree, named bool, nm [amlNameLen]byte, withSt
 		}()
 		var o *Object
 		if named {
-			o = tree.newNamedObject(pOpIntScopeBlock, 0, nm)
+			o = tree.newNamedObject(c13Opcode, 0, nm)
 		} else {
-			o = tree.newObject(pOpIntScopeBlock, 0)
+			o = tree.newObject(c13Opcode, 0)
 		}
 		idx = c13Ix(tree, o.index)
 	}()
@@ -256,11 +259,29 @@ func (l *c13Log) opEdit(tree *ObjectTree, kind string, p, c, a, o int, withState
 		l.kv("a", a)
 	case "free":
 		l.kv("o", o)
+		l.kv("pa", c13Ix(tree, tree.objPool[o-1].parentIndex)) // o's parent after the call (0 for a freed slot too)
 	}
 	l.res(ok)
 	if withState {
 		l.state(tree)
 	}
+	l.end()
+}
+
+// opBulk runs CreateDefaultScopes on the (empty) pool and records the resulting pool.
+func (l *c13Log) opBulk(tree *ObjectTree, handle uint8) {
+	ok := true
+	func() {
+		defer func() {
+			if recover() != nil {
+				ok = false
+			}
+		}()
+		tree.CreateDefaultScopes(handle)
+	}()
+	l.begin("bulk")
+	l.res(ok)
+	l.state(tree)
 	l.end()
 }
 
@@ -295,6 +316,41 @@ func (l *c13Log) reset(why string) {
 		l.str(`,"why":"` + why + `"`)
 	}
 	l.end()
+}
+
+// c13WalksEnd reports whether every sibling list and every parent chain of the real pool ends within
+// len(pool) steps.  Find has no bound of its own: on a cyclic list (a broken tree, which the checkpoint
+// just recorded shows to the monitor) it would never return, so lookups are only issued when this holds.
+func c13WalksEnd(tree *ObjectTree) bool {
+	n := len(tree.objPool)
+	for _, o := range tree.objPool {
+		if o.opcode == pOpIntFreedObject {
+			continue
+		}
+		steps := 0
+		for i := o.firstArgIndex; i != InvalidIndex; i = tree.objPool[i].nextSiblingIndex {
+			if steps++; steps > n || i >= uint32(n) {
+				return false
+			}
+		}
+		steps = 0
+		for i := o.parentIndex; i != InvalidIndex; i = tree.objPool[i].parentIndex {
+			if steps++; steps > n || i >= uint32(n) {
+				return false
+			}
+		}
+	}
+	return true
+}
+
+// c13LiveSlots lists every live slot (nodes of the tree and of detached subtrees).
+func c13LiveSlots(tree *ObjectTree) (out []int) {
+	for i := range tree.objPool {
+		if tree.ObjectAt(uint32(i)) != nil {
+			out = append(out, i+1)
+		}
+	}
+	return out
 }
 
 // c13Reachable lists the slots reachable from the root (slot 1) through the exported API.
@@ -337,7 +393,7 @@ type c13Script struct {
 	Exprs   [][]int `json:"exprs"`   // a line that only defines the expression set used by "findall"
 	Ops     []c13Op `json:"ops"`     // edits (k = new/app/aft/det/free/ck) and lookups (k = find)
 	St      int     `json:"st"`      // log the pool projection after every St-th edit (0: never)
-	FindAll int     `json:"findall"` // after the ops: every expression of the set from every node of the tree
+	FindAll int     `json:"findall"` // after the ops: every expression of the set from every live object and from InvalidIndex
 }
 
 func c13Bytes(v []int) []byte {
@@ -394,13 +450,22 @@ func (l *c13Log) runScript(sc *c13Script, exprs [][]byte) {
 			l.opEdit(tree, op.K, 0, 0, 0, op.O, withState)
 		case "ck":
 			l.opCheckpoint(tree)
+		case "bulk":
+			l.opBulk(tree, 7)
 		case "find":
-			l.opFind(tree, op.S, c13Bytes(op.X))
+			if c13WalksEnd(tree) {
+				l.opFind(tree, op.S, c13Bytes(op.X))
+			}
 		}
 	}
 	if sc.FindAll == 1 {
 		l.opCheckpoint(tree)
-		for _, s := range c13Reachable(tree) {
+		if !c13WalksEnd(tree) {
+			l.reset("")
+			return
+		}
+		// from every live object (tree nodes and nodes of detached subtrees) and from InvalidIndex (scope 0)
+		for _, s := range append([]int{0}, c13LiveSlots(tree)...) {
 			for _, x := range exprs {
 				l.opFind(tree, s, x)
 			}
@@ -447,15 +512,39 @@ func TestVerifC13Scripts(t *testing.T) {
 
 // ---- random mode (leg T) ----
 
-var c13Names = [][amlNameLen]byte{
+var c13BaseNames = [][amlNameLen]byte{
 	{'A', '_', '_', '_'}, {'B', '_', '_', '_'}, {'C', '_', '_', '_'}, {'_', 'S', 'B', '_'}, {'P', 'C', 'I', '0'},
 	{'A', '1', '_', '_'}, {'X', '9', 'Z', '_'}, {'_', '_', '_', '_'}, {'_', 'T', '_', '0'}, {'Z', 'Z', 'Z', 'Z'},
 }
 
+var c13Opcodes = []uint16{pOpIntScopeBlock, pOpIntScopeBlock, pOpDevice, pOpMethod, pOpName, pOpScope, pOpPackage, pOpProcessor, pOpThermalZone, pOpIf, pOpAdd}
+
+// c13NameOf returns the i-th name of an unbounded pool of valid NameSegs.
+func c13NameOf(i int) [amlNameLen]byte {
+	if i < len(c13BaseNames) {
+		return c13BaseNames[i]
+	}
+	const lead = "ABCDEFGHIJKLMNOPQRSTUVWXYZ_"
+	const rest = "ABCDEFGHIJKLMNOPQRSTUVWXYZ_0123456789"
+	k := i - len(c13BaseNames)
+	return [amlNameLen]byte{lead[k%len(lead)], rest[(k/27)%len(rest)], rest[(k/999)%len(rest)], rest[(k*7)%len(rest)]}
+}
+
+const (
+	c13KindRandom = iota // attach anywhere
+	c13KindWide          // most nodes go under a few hubs: scopes with 100+ children
+	c13KindDeep          // most nodes go under the deepest node: long chains
+	c13KindSmall
+	c13KindBulk // starts from CreateDefaultScopes
+	c13NKinds
+)
+
 type c13Driver struct {
-	l    *c13Log
-	rng  *rand.Rand
-	tree *ObjectTree
+	l      *c13Log
+	rng    *rand.Rand
+	tree   *ObjectTree
+	kind   int
+	nNames int
 }
 
 func (d *c13Driver) live() (all, detached, attached []int) {
@@ -477,23 +566,31 @@ func (d *c13Driver) live() (all, detached, attached []int) {
 }
 
 func (d *c13Driver) obj(i int) *Object { return d.tree.objPool[i-1] }
+func (d *c13Driver) pick(v []int) int  { return v[d.rng.Intn(len(v))] }
+func (d *c13Driver) name() [amlNameLen]byte {
+	return c13NameOf(d.rng.Intn(d.nNames))
+}
 
-// isAncestorOrSelf reports whether a is p or an ancestor of p (bounded walk over the real parent links).
+// depth counts the ancestors of i (bounded walk over the real parent links).
+func (d *c13Driver) depth(i int) (n int) {
+	for i = c13Ix(d.tree, d.obj(i).parentIndex); i > 0 && n <= len(d.tree.objPool); i = c13Ix(d.tree, d.obj(i).parentIndex) {
+		n++
+	}
+	return n
+}
+
+// isAncestorOrSelf reports whether a is p or an ancestor of p.
 func (d *c13Driver) isAncestorOrSelf(a, p int) bool {
-	for steps := 0; p != 0 && steps <= len(d.tree.objPool); steps++ {
+	for steps := 0; p > 0 && steps <= len(d.tree.objPool); steps++ {
 		if p == a {
 			return true
 		}
 		p = c13Ix(d.tree, d.obj(p).parentIndex)
-		if p < 0 {
-			return false
-		}
 	}
 	return false
 }
 
-// nameClash reports whether p already has a child carrying c's name (lookups are only defined
-// for scopes without duplicate names, so the driver never creates one).
+// nameClash reports whether p already has a child carrying c's name.
 func (d *c13Driver) nameClash(p, c int) bool {
 	nm := d.obj(c).name
 	if nm[0] == 0 {
@@ -508,9 +605,33 @@ func (d *c13Driver) nameClash(p, c int) bool {
 	return false
 }
 
-func (d *c13Driver) pick(v []int) int { return v[d.rng.Intn(len(v))] }
+// parentFor chooses where the next node is attached, according to the shape this tree is meant to get.
+func (d *c13Driver) parentFor(all, attached []int) int {
+	switch {
+	case d.kind == c13KindWide && d.rng.Intn(20) < 17:
+		hubs := []int{1}
+		if len(attached) > 0 {
+			hubs = append(hubs, attached[0])
+		}
+		if len(attached) > 3 {
+			hubs = append(hubs, attached[3])
+		}
+		return d.pick(hubs)
+	case d.kind == c13KindDeep && d.rng.Intn(20) < 17:
+		best, bd := 1, 0
+		for _, c := range c13Reachable(d.tree) {
+			if dc := d.depth(c); dc > bd {
+				best, bd = c, dc
+			}
+		}
+		return best
+	case d.rng.Intn(3) == 0 && len(attached) > 0:
+		return d.pick(attached)
+	}
+	return d.pick(all)
+}
 
-// step performs one legal random operation; grow biases towards a bigger tree.
+// step performs one random operation whose preconditions hold on the real tree; grow biases towards a bigger tree.
 func (d *c13Driver) step(maxObj int, grow bool) {
 	all, detached, attached := d.live()
 	for try := 0; try < 20; try++ {
@@ -520,21 +641,22 @@ func (d *c13Driver) step(maxObj int, grow bool) {
 			if len(all) >= maxObj || len(detached) > 6 {
 				continue
 			}
+			c13Opcode = c13Opcodes[d.rng.Intn(len(c13Opcodes))]
 			if d.rng.Intn(5) == 0 {
 				d.l.opNew(d.tree, false, [amlNameLen]byte{}, false)
 			} else {
-				d.l.opNew(d.tree, true, c13Names[d.rng.Intn(len(c13Names))], false)
+				d.l.opNew(d.tree, true, d.name(), false)
 			}
 			return
 		case r < 60: // append / appendAfter a detached node (possibly a whole subtree)
 			if len(detached) == 0 {
 				continue
 			}
-			c, p := d.pick(detached), d.pick(all)
-			if d.rng.Intn(3) == 0 && len(attached) > 0 { // prefer deep parents now and then
-				p = d.pick(attached)
+			c, p := d.pick(detached), d.parentFor(all, attached)
+			if d.isAncestorOrSelf(c, p) {
+				continue
 			}
-			if d.isAncestorOrSelf(c, p) || d.nameClash(p, c) {
+			if d.nameClash(p, c) && d.rng.Intn(10) > 0 { // now and then a scope gets two children of one name
 				continue
 			}
 			kids, _ := c13ApiKids(d.tree, d.obj(p))
@@ -551,20 +673,28 @@ func (d *c13Driver) step(maxObj int, grow bool) {
 			c := d.pick(attached)
 			d.l.opEdit(d.tree, "det", c13Ix(d.tree, d.obj(c).parentIndex), c, 0, 0, false)
 			return
-		default: // free a childless node, attached or not
+		default: // free
 			if grow && r < 92 {
 				continue
 			}
-			var cand []int
-			for _, i := range all[1:] {
+			var leaves, inner []int
+			for _, i := range all {
 				if o := d.obj(i); o.firstArgIndex == InvalidIndex && o.lastArgIndex == InvalidIndex {
-					cand = append(cand, i)
+					if i != 1 {
+						leaves = append(leaves, i)
+					}
+				} else {
+					inner = append(inner, i)
 				}
 			}
-			if len(cand) == 0 {
+			if len(inner) > 0 && d.rng.Intn(12) == 0 { // an object that still has children: the API refuses
+				d.l.opEdit(d.tree, "free", 0, 0, 0, d.pick(inner), false)
+				return
+			}
+			if len(leaves) == 0 {
 				continue
 			}
-			d.l.opEdit(d.tree, "free", 0, 0, 0, d.pick(cand), false)
+			d.l.opEdit(d.tree, "free", 0, 0, 0, d.pick(leaves), false)
 			return
 		}
 	}
@@ -595,6 +725,9 @@ func (d *c13Driver) randomExpr(scope int, reach []int) []byte {
 		segs, _ = d.path(1, target)
 	case 3, 4: // '^'-relative: up k levels, then down to the target if it lives there
 		k := 1 + rng.Intn(4)
+		if rng.Intn(5) == 0 {
+			k = rng.Intn(d.depth(scope) + 3)
+		}
 		a := scope
 		for i := 0; i < k && a > 0; i++ {
 			prefix = append(prefix, '^')
@@ -606,7 +739,7 @@ func (d *c13Driver) randomExpr(scope int, reach []int) []byte {
 		if s, ok := d.path(a, target); ok && a > 0 {
 			segs = s
 		} else if rng.Intn(2) == 0 {
-			segs = [][amlNameLen]byte{c13Names[rng.Intn(len(c13Names))]}
+			segs = [][amlNameLen]byte{d.name()}
 		}
 	case 5, 6: // relative multi-segment path below the scope
 		if s, ok := d.path(scope, target); ok {
@@ -621,11 +754,16 @@ func (d *c13Driver) randomExpr(scope int, reach []int) []byte {
 		segs = [][amlNameLen]byte{d.obj(target).name}
 	default: // random names
 		for n := rng.Intn(4); n > 0; n-- {
-			segs = append(segs, c13Names[rng.Intn(len(c13Names))])
+			segs = append(segs, d.name())
+		}
+	}
+	if len(segs) > 255 { // SegCount is one byte; longer paths only exist in the joined form
+		if rng.Intn(2) == 0 {
+			segs = segs[:255]
 		}
 	}
 	if rng.Intn(12) == 0 && len(segs) > 0 { // perturb one segment
-		segs[rng.Intn(len(segs))] = c13Names[rng.Intn(len(c13Names))]
+		segs[rng.Intn(len(segs))] = d.name()
 	}
 	if rng.Intn(15) == 0 && len(segs) > 1 { // drop the last segment
 		segs = segs[:len(segs)-1]
@@ -634,7 +772,7 @@ func (d *c13Driver) randomExpr(scope int, reach []int) []byte {
 	switch form := rng.Intn(10); {
 	case len(segs) == 2 && form < 6:
 		x = append(x, 0x2e)
-	case len(segs) >= 1 && (form < 5 || (len(segs) > 2 && form < 8)):
+	case len(segs) >= 1 && len(segs) <= 255 && (form < 5 || (len(segs) > 2 && form < 8)):
 		cnt := len(segs)
 		if rng.Intn(25) == 0 {
 			cnt = rng.Intn(256) // SegCount that does not match
@@ -667,8 +805,30 @@ func (d *c13Driver) randomExpr(scope int, reach []int) []byte {
 		default:
 			x = append(x, 0x2f, []byte{0, 1, 2, 65, byte(rng.Intn(256))}[rng.Intn(5)])
 		}
+	case 8: // a prefix after a prefix
+		x = append([]byte{"\\^"[rng.Intn(2)]}, x...)
 	}
 	return x
+}
+
+// lookups runs n random lookups: mostly from nodes of the tree, some from nodes of detached subtrees,
+// a few from InvalidIndex.  They need a live root in slot 1 (absolute paths start there).
+func (d *c13Driver) lookups(n int) {
+	if root := d.tree.ObjectAt(0); root == nil || root.parentIndex != InvalidIndex || !c13WalksEnd(d.tree) {
+		return
+	}
+	reach, all := c13Reachable(d.tree), c13LiveSlots(d.tree)
+	for q := 0; q < n; q++ {
+		scope := d.pick(reach)
+		switch r := d.rng.Intn(50); {
+		case r == 0:
+			d.l.opFind(d.tree, 0, d.randomExpr(1, reach))
+			continue
+		case r < 5:
+			scope = d.pick(all)
+		}
+		d.l.opFind(d.tree, scope, d.randomExpr(scope, reach))
+	}
 }
 
 func TestVerifC13Random(t *testing.T) {
@@ -681,28 +841,50 @@ func TestVerifC13Random(t *testing.T) {
 	}
 	l, done := c13NewLog(t, os.Getenv("C13_TRACE_T"))
 	defer done()
+	defer func() { c13Opcode = pOpIntScopeBlock }()
 	for ti := 0; ti < nTrees; ti++ {
 		rng := rand.New(rand.NewSource(seed*1000003 + int64(ti)))
-		d := &c13Driver{l: l, rng: rng, tree: NewObjectTree()}
-		maxObj := 8 + rng.Intn(maxObjAll-7)
-		if ti%4 == 0 {
-			maxObj = maxObjAll
+		d := &c13Driver{l: l, rng: rng, tree: NewObjectTree(), kind: ti % c13NKinds, nNames: len(c13BaseNames)}
+		maxObj := maxObjAll
+		switch d.kind {
+		case c13KindWide:
+			d.nNames = 400
+		case c13KindDeep:
+			d.nNames = 40
+		case c13KindSmall, c13KindBulk:
+			maxObj = 8 + rng.Intn(maxObjAll-7)
 		}
-		l.opNew(d.tree, true, [amlNameLen]byte{'\\'}, false)
-		nOps := maxObj*3 + rng.Intn(maxObj*2)
+		if d.kind == c13KindBulk {
+			l.opBulk(d.tree, uint8(rng.Intn(256)))
+		} else {
+			l.opNew(d.tree, true, [amlNameLen]byte{'\\'}, false)
+		}
+		nOps := maxObj*6 + rng.Intn(maxObj*2)
 		every := 25 + rng.Intn(50)
 		for i := 1; i <= nOps; i++ {
-			d.step(maxObj, i < nOps/2 || rng.Intn(3) > 0)
+			d.step(maxObj, i < nOps*2/3 || rng.Intn(3) > 0)
 			if i%every == 0 {
 				l.opCheckpoint(d.tree)
+				d.lookups(12) // lookups interleaved with the edits
+			}
+		}
+		// bring most detached subtrees back so that the final lookups run on a large namespace
+		_, detached, _ := d.live()
+		for _, c := range detached {
+			if rng.Intn(8) == 0 {
+				continue
+			}
+			for try := 0; try < 5; try++ {
+				p := d.parentFor(c13Reachable(d.tree), nil)
+				if d.isAncestorOrSelf(c, p) || (d.nameClash(p, c) && try < 4) {
+					continue
+				}
+				l.opEdit(d.tree, "app", p, c, 0, 0, false)
+				break
 			}
 		}
 		l.opCheckpoint(d.tree)
-		reach := c13Reachable(d.tree)
-		for q := 0; q < nLookups && len(reach) > 0; q++ {
-			scope := d.pick(reach)
-			l.opFind(d.tree, scope, d.randomExpr(scope, reach))
-		}
+		d.lookups(nLookups)
 		l.reset("")
 	}
 }
